@@ -1056,8 +1056,18 @@ const FRAG_BYTES: &[&[u8]] = &[
     b"\x80\x90", b"aa", b"a1", b"zz9", b"\xEF", b"\x10",
 ];
 
+/// Characters at the extremes of every UTF-8 byte class: first and last continuation byte (0x80, 0xBF) in every position,
+/// first and last lead byte of every length (C2, DF, E0, EF, F0, F4), the neighbours of the surrogate gap, the byte order
+/// mark. A boundary predicate that is wrong for one byte value is wrong for one of these.
+const UTF8_EDGES: &[&str] = &[
+    "\u{80}", "\u{BF}", "\u{C0}", "\u{FF}", "\u{7FF}", "\u{800}", "\u{83F}", "\u{FFF}", "\u{1000}", "\u{D7FF}", "\u{E000}", "\u{FEFF}", "\u{FFFD}",
+    "\u{FFFF}", "\u{10000}", "\u{1003F}", "\u{1F4BF}", "\u{3FFFF}", "\u{40000}", "\u{FFFFF}", "\u{100000}", "\u{10FFFF}",
+];
+
 fn gen_source(rng: &mut Rng, pair: &str) -> Vec<u8> {
     let mut out = Vec::new();
+    // a per-source choice (swarm): no edge characters, a few, or many
+    let edge_rate = *rng.pick(&[0u32, 0, 1, 1, 4]);
     let target = match rng.below(64) {
         0..=3 => 0,
         4..=11 => rng.range(1, 3),
@@ -1068,6 +1078,10 @@ fn gen_source(rng: &mut Rng, pair: &str) -> Vec<u8> {
         _ => if rng.chance(1, 3) { rng.range(65_500, 66_000) } else { rng.range(250, 520) },
     };
     while out.len() < target {
+        if pair != "bytes" && edge_rate > 0 && rng.chance(edge_rate, 8) {
+            out.extend_from_slice(rng.pick(UTF8_EDGES).as_bytes());
+            continue;
+        }
         match pair {
             "modes" => out.extend_from_slice(rng.pick(FRAG_MODES).as_bytes()),
             "callbacks" => out.extend_from_slice(rng.pick(FRAG_CALLBACKS).as_bytes()),
